@@ -650,6 +650,7 @@ type vfReq struct {
 	Raw    []byte // request body as is
 	Cookies map[string]string
 	PreCookies [][2]string // sent before Cookies in the Cookie header (duplicate names allowed)
+	ConnAge    time.Duration // the TLS connection was opened (and the client certificate verified) this long before the request
 	WriteFail  bool        // the requester's connection breaks while the response body is written (Write returns an error)
 	Basic  *[2]string
 	Header map[string]string
@@ -768,7 +769,7 @@ func (w *vfWorld) buildHTTP(r *vfReq) (*http.Request, *vfResp) {
 		cs := &tls.ConnectionState{Version: tls.VersionTLS13, HandshakeComplete: true, ServerName: vfHost}
 		if r.Cert != nil {
 			// what crypto/tls does for ClientAuth=VerifyClientCertIfGiven
-			opts := x509.VerifyOptions{Roots: w.state.ClientCAPool, CurrentTime: time.Now(),
+			opts := x509.VerifyOptions{Roots: w.state.ClientCAPool, CurrentTime: time.Now().Add(-r.ConnAge),
 				KeyUsages: []x509.ExtKeyUsage{x509.ExtKeyUsageClientAuth}, Intermediates: x509.NewCertPool()}
 			if w.state.ClientCAPool == nil {
 				opts.Roots = x509.NewCertPool()
@@ -818,6 +819,11 @@ func (w *vfWorld) prepare(r *vfReq) *vfCall {
 			r.Header["X-Real-Ip"] = m[len("fwd:"):]
 		case strings.HasPrefix(m, "peer:"):
 			r.Peer = m[len("peer:"):]
+		case strings.HasPrefix(m, "connage:"):
+			if d, err := time.ParseDuration(m[len("connage:"):]); err == nil && d > 0 {
+				r.ConnAge = d
+				w.probe("request-on-kept-alive-connection")
+			}
 		case m == "writefail":
 			r.WriteFail = true
 			w.fault("net.response.write.error")
